@@ -89,6 +89,10 @@ func MapTableSchemaStoreFromConfig(config []byte, useMySQL bool) (*MapTableSchem
 	if err := yaml.Unmarshal(config, &storeConfig); err != nil {
 		return nil, err
 	}
+	// document with null value ("~", "null") as a whole resets pointer to nil
+	if storeConfig == nil {
+		return nil, ErrInvalidEncryptorConfig
+	}
 	if storeConfig.Defaults == nil {
 		storeConfig.Defaults = &defaultValues{}
 	}
@@ -100,7 +104,15 @@ func MapTableSchemaStoreFromConfig(config []byte, useMySQL bool) (*MapTableSchem
 	var mask SettingMask
 	mapSchemas := make(map[string]*tableSchema, len(storeConfig.Schemas))
 	for _, schema := range storeConfig.Schemas {
+		// null item in the list of tables
+		if schema == nil {
+			return nil, ErrInvalidEncryptorConfig
+		}
 		for _, setting := range schema.EncryptionColumnSettings {
+			// null item in the list of columns
+			if setting == nil {
+				return nil, ErrInvalidEncryptorConfig
+			}
 			setting.applyDefaults(*storeConfig.Defaults)
 			if err := setting.Init(useMySQL); err != nil {
 				return nil, err
